@@ -165,6 +165,8 @@ class WorkerPool:
         self.timeout = timeout
         self.extra_env = extra_env
         self.workers = []
+        self._busy = False
+        self._iso = None
         os.makedirs(os.path.join(VERIF_ROOT, "out", "logs"), exist_ok=True)
 
     def __enter__(self):
@@ -174,9 +176,10 @@ class WorkerPool:
         self.close()
 
     def close(self):
-        for w in self.workers:
+        for w in self.workers + ([self._iso] if self._iso else []):
             w.shutdown()
         self.workers = []
+        self._iso = None
 
     def _ensure(self, n):
         while len(self.workers) < n:
@@ -190,6 +193,27 @@ class WorkerPool:
         if not payloads:
             return
         timeout = timeout or self.timeout
+        if self._busy:
+            # re-entrant use (a harness isolating the culprit of a failed batch from inside its result loop): the
+            # regular workers are owned by the threads of the outer imap, so these payloads run one by one on a
+            # dedicated worker
+            if self._iso is None:
+                log = os.path.join(VERIF_ROOT, "out", "logs", f"{self.harness}.iso.log")
+                self._iso = _Worker(self.harness, self.hashseed, log, self.extra_env)
+            for i, p in enumerate(payloads):
+                try:
+                    status, res = self._iso.call(p, timeout)
+                except Exception as exc:  # pragma: no cover
+                    status, res = "abort", {"error": repr(exc)}
+                yield i, status, res
+            return
+        self._busy = True
+        try:
+            yield from self._imap(payloads, timeout)
+        finally:
+            self._busy = False
+
+    def _imap(self, payloads, timeout):
         n = min(self.n, len(payloads))
         self._ensure(n)
         todo = queue.Queue()
